@@ -167,7 +167,7 @@ class Gate:
                     raise GateHang("worker %d (%s) did not reach a yield point within %ss" % (idx, self.names[idx], WATCHDOG))
         self.steps += 1
 
-    def run(self, preempts=(), maxsteps=4000, first=0):
+    def run(self, preempts=(), maxsteps=4000, first=0, fallback="lowest"):
         """non-preemptive scheduling (the running worker keeps running) with preemptions [(position, target)], position counted in
         yield points.  Returns 'done' or 'deadlock' (all unfinished workers disabled and no clock move can enable one)."""
         cur = first
@@ -206,7 +206,9 @@ class Gate:
                         return "deadlock"
                     Clock.t = min(dl)  # time passes only when everybody is blocked
                     continue
-                cur = nxt[0]
+                # when the running thread blocks or ends: the lowest runnable thread, or (round robin) the next one after it
+                later = [i for i in nxt if i > cur]
+                cur = later[0] if (fallback == "rr" and later) else nxt[0]
             self.step(cur)
             pos += 1
         return "done"
